@@ -49,6 +49,12 @@ CHECKS["C15"] = dict(
     ref="DESIGN.md section 4 / C15",
 )
 
+CHECKS["C12"] = dict(
+    technique="static analysis: writer/reader key-set agreement of the wire format, per-slot coverage of Expression.__slots__ (import introspection) by dump/load/__deepcopy__, typed JSON-safety lint (mypy as a library) over meta stores and constructor arguments",
+    text="dump and load/_load must agree on the set of payload keys; every slot of Expression must be read by dump, restored by load (links through set/append) and copied by __deepcopy__, so a newly added field cannot be silently dropped; every value stored into meta (and, thorough tier, every non-expression constructor/set argument, 4000+ sites) must have a JSON-representable static type or be an expression that dump encodes; pickle must delegate to the same pair. Decides field coverage and JSON-safety structurally; value-level round trips are not executed.",
+    ref="DESIGN.md section 4 / C12",
+)
+
 NOT_APPLICABLE = {
     "C02": "oracle is SQLite/DuckDB evaluation semantics (NULL ordering, division, || precedence); not present in the source, no structural clause implies row equality",
     "C03": "result-multiset equality of optimized vs original query over all databases; guards are semantic conditions, only checkable as frozen fragments (false-alarm prone)",
